@@ -260,16 +260,18 @@ def _length(repo, col, fi, ex):
     mean_line = next((n.lineno for n in ast.walk(fi.node) if isinstance(n, ast.Call) and isinstance(n.func, ast.Attribute) and n.func.attr == "mean"), None)
     raises = [n for n in walk_no_nested(fi.node) if isinstance(n, ast.If) and any(isinstance(b, ast.Raise) for b in n.body)]
     props = set()
-    for r_ in raises:
-        t = unparse(r_.test)
-        if "within_branch_radiuses" in t:
+    for r_ in raises:   # what each refusing guard is about, read off the terms it tests (no local name matters)
+        tt = ex.term(r_.test)
+        if T.find(tt, lambda x: x.op == "const" and x.name == "radius") is not None:
             props.add("radius")
-        if "compartment_properties" in t:
+        if T.find(tt, lambda x: x.op == "elem" and x.args[0].op in ("list", "tuple") and
+                  {"length", "capacitance", "axial_resistivity"} <= {y.name for y in x.args[0].args if y.op == "const"}) is not None:
             props.add("uniform-props")
-        if "channel_names" in t:
-            props.add("channel-presence")
-        if "channel_param_names" in t:
+        if T.find(tt, lambda x: x.op == "attr" and x.name in ("channel_params", "channel_states")) is not None:
             props.add("channel-params")
+        elif T.find(tt, lambda x: x.op == "attr" and x.name == "_name") is not None and \
+                T.find(tt, lambda x: x.op == "attr" and x.name == "channels") is not None:
+            props.add("channel-presence")
     ok = mean_line is not None and all(r_.lineno < mean_line for r_ in raises) and props >= {"radius", "uniform-props", "channel-presence", "channel-params"}
     col.check(ok, R, fi, "inhomogeneity guards (radius, length/capacitance/resistivity, channel presence, channel parameters) precede the averaging",
               f"{sorted(props)}", f"guards found: {sorted(props)}; averaging at line {mean_line}", node=fi.node)
@@ -343,12 +345,18 @@ def _rows(repo, col, fi, ex):
             f"compartments` on", node=st.node)
     # the insertion row is the global compartment index of the branch's first compartment
     from sa.spaces import Classifier
-    sx = next((n for n in walk_no_nested(fi.node) if isinstance(n, ast.Assign) and isinstance(n.targets[0], ast.Name)
-               and n.targets[0].id == "start_idx"), None)
+    # (located by its use: the upper bound of the head cut `<table>.iloc[:start]`, whatever the local is called)
+    sx = None
+    try:
+        head = T.find(a, lambda x: x.op == "sub" and x.args[1].op == "slice" and x.args[0].op == "attr" and x.args[0].name == "iloc")
+        if head is not None and not (head.args[1].args[1].op == "const" and head.args[1].args[1].name is None):
+            sx = head.args[1].args[1]
+    except NameError:
+        sx = None
     if sx is None:
-        col.unk(R, fi, "insertion row of the new compartments", "start_idx not found", node=fi.node)
+        col.unk(R, fi, "insertion row of the new compartments", "the head cut `<table>.iloc[:start]` was not found", node=fi.node)
     else:
-        t = ex.term(sx.value)
+        t = sx
         sp = Classifier({}).space(t, "node")
         from_view = T.find(t, lambda x: x.op == "attr" and x.name == "nodes" and x.args[0].op == "param") is not None
         uniform = T.find(t, lambda x: x.op == "binop" and x.name == "*" and
@@ -360,7 +368,7 @@ def _rows(repo, col, fi, ex):
                 "first global_comp_index of the view" if ok else
                 f"the insertion row is computed as {t.short(80)}: a branch index times a compartment count is the first compartment "
                 f"only if all earlier branches have that many compartments; otherwise rows of another branch are replaced",
-                node=sx)
+                node=st.node)
     dr = T.find(v, lambda x: x.op == "mcall" and x.name == "drop")
     ok = False
     if dr is not None:
